@@ -340,6 +340,40 @@ func TestCheck(t *testing.T) {
 		}
 	})
 
+	// Phase C3: both separators of an extended text replaced at once - by every pair of byte values, and by the same rune
+	// outside ASCII twice (a recogniser that only asks for "some separator, twice the same").
+	r.Phase("C3: both separators replaced at once: all 65536 byte pairs and every confusable rune twice, year lengths 4..9, limits 0 and 10", func() {
+		runes := ref.ConfusableRunes("0123456789-")
+		parts := [][3]string{{"2024", "01", "02"}, {"2024", "02", "29"}, {"0001", "12", "31"}, {"12345", "06", "30"}, {"123456", "01", "01"}, {"123456789", "12", "31"}}
+		for _, lim := range []int{0, 10} {
+			lim := lim
+			restore := setLimit(lim)
+			r.Parallel(int64(len(parts))*256, 64, func(w *vkit.W, lo, hi int64) {
+				for k := lo; k < hi; k++ {
+					p, s1 := parts[k/256], byte(k%256)
+					for s2 := 0; s2 < 256; s2++ {
+						text := p[0] + string([]byte{s1}) + p[1] + string([]byte{byte(s2)}) + p[2]
+						for _, rule := range rules {
+							judge(Case{Text: vkit.B(text), Rule: rule, Limit: lim}, w)
+						}
+						w.EvalRandom(vkit.Hash64("C3", text, strconv.Itoa(lim)), true)
+					}
+					if k%256 == 0 {
+						for _, rn := range runes {
+							for _, text := range []string{p[0] + string(rn) + p[1] + string(rn) + p[2], p[0] + string(rn) + p[1] + "-" + p[2], p[0] + "-" + p[1] + string(rn) + p[2]} {
+								for _, rule := range rules {
+									judge(Case{Text: vkit.B(text), Rule: rule, Limit: lim}, w)
+								}
+								w.EvalRandom(vkit.Hash64("C3r", text, strconv.Itoa(lim)), true)
+							}
+						}
+					}
+				}
+			})
+			restore()
+		}
+	})
+
 	// Phase H: the limit is a setting: the same text is parsed again after MaxInputLength was lowered, raised and disabled.
 	r.Phase("H: histories - valid texts re-parsed while MaxInputLength changes between the calls", func() {
 		r.Serial(func(w *vkit.W) {
